@@ -42,6 +42,9 @@ def view_family(shape, kf_empty_ok=True):
     m = np.zeros(shape, dtype=bool)
     m.flat[::2] = True
     views.append(m)
+    # a single integer index array (indexes the first axis), and a boolean array for the first axis inside a tuple
+    views.append(np.array([shape[0] - 1, 0]))
+    views.append((np.arange(shape[0]) % 2 == 0,))
     return views
 
 
@@ -350,6 +353,12 @@ def harnesses(tier):
                               params=dict(shape=shape, vsel=(i, nsplit), view_first=(i % 2 == 0)),
                               validate=15, weight=5, max_paths=100000, wall_s=3000,
                               bounds=dict(shape=shape, selection_kinds=SEL_KINDS, views='%d views (every %dth from %d)' % (nv, nsplit, i))))
+    if tier == 'quick':
+        # 1-d data take their own code paths for views (bare slices, single arrays)
+        hs.append(Harness('values (3,) all views', body_values, params=dict(shape=(3,)), validate=15, weight=3, max_paths=100000, wall_s=3000,
+                          bounds=dict(shape=(3,), attribute_kinds=ATT_KINDS, views=len(view_family((3,))))))
+        hs.append(Harness('masks (3,) all views', body_masks, params=dict(shape=(3,)), validate=15, weight=5, max_paths=100000, wall_s=3000,
+                          bounds=dict(shape=(3,), selection_kinds=SEL_KINDS, views=len(view_family((3,))))))
     ishapes = [(2, 3)] if tier == 'quick' else [(2, 3), (2, 3, 2), (3, 2, 2)]
     for shape in ishapes:
         hs.append(Harness('indexed %s' % (shape,), body_indexed, params=dict(shape=shape), validate=15,
